@@ -63,6 +63,15 @@ Definition spec_meta (k : Z) (per : list item) (md : lab) : lab :=
   | _ => md
   end.
 
+(* the result of a regular index expression: the data are NumPy's per-axis selection d', every annotation is
+   selected by the same items (s0 by the clipped start of the time slice; its value after a strided slice is the
+   one pinned by the existing tests) *)
+Definition spec_result (x : pd) (k : Z) (per : list item) (d' : nest) : pd :=
+  {| shape := repeat 1 (Z.to_nat k) ++ out_shape per (shape x); dat := d';
+     s0 := s0 x + py_lo (n_time x) (slice_start (time_item per));
+     fsn := fsn x; fsd := fsd x * slice_step (time_item per);
+     chan := spec_chan k per (chan x); meta := spec_meta k per (meta x) |}.
+
 (* the epoch axis survives while the channel axis is dropped by an integer: the (epoch, time) result is read
    as (channel, time) by PipelineData (known finding, see known_findings.txt) *)
 Definition epoch_without_channel (nd k : Z) (per : list item) : bool :=
